@@ -7,7 +7,7 @@
 using namespace bpp;
 using namespace std;
 
-void FivePointsNumericalDerivative::updateDerivatives(const ParameterList& parameters)
+void FivePointsNumericalDerivative::updateDerivatives(const ParameterList& params)
 {
   if (computeD1_ && variables_.size() > 0)
   {
@@ -15,8 +15,11 @@ void FivePointsNumericalDerivative::updateDerivatives(const ParameterList& param
       function1_->enableFirstOrderDerivatives(false);
     if (function2_)
       function2_->enableSecondOrderDerivatives(false);
-    function_->setParameters(parameters);
+    function_->setParameters(params);
     f3_ = function_->getValue();
+    // The derivatives of every selected variable depend on the whole point, not only on the
+    // parameters this update names: work from the function's full parameter list.
+    const ParameterList parameters(function_->getParameters());
     string lastVar;
     bool functionChanged = false;
     ParameterList p;
@@ -104,7 +107,7 @@ void FivePointsNumericalDerivative::updateDerivatives(const ParameterList& param
       function1_->enableFirstOrderDerivatives(computeD1_);
     if (function2_)
       function2_->enableSecondOrderDerivatives(computeD2_);
-    function_->setParameters(parameters);
+    function_->setParameters(params);
     // Just in  case derivatives are not computed:
     f3_ = function_->getValue();
   }
